@@ -252,7 +252,7 @@ def canon(st):
     r = ring(c)
     ll = getattr(c, '_link_lookup', None)
     return (type(c).__name__, c.max_size, r, tuple(dict.items(c)),
-            tuple(sorted(ll)) if ll is not None else None, c.on_miss is not None)
+            tuple(sorted(ll, key=repr)) if ll is not None else None, c.on_miss is not None)
 
 
 class Spec:
@@ -403,8 +403,8 @@ class Spec:
             elif ring_back(c) != want:
                 bad('op', 'recency-ring(backward)', want, ring_back(c)); ok = False
             ll = getattr(c, '_link_lookup', None)
-            if ll is not None and sorted(ll) != sorted(k for k, _ in want):
-                bad('op', 'link-lookup keys', sorted(k for k, _ in want), sorted(ll)); ok = False
+            if ll is not None and sorted(ll, key=repr) != sorted((k for k, _ in want), key=repr):
+                bad('op', 'link-lookup keys', sorted((k for k, _ in want), key=repr), sorted(ll, key=repr)); ok = False
         return ok
 
     def battery(self, st, ref, bad):
@@ -426,9 +426,9 @@ class Spec:
         for k in self.keys:
             read('in', lambda: k in c, k in cont)
         read('len', lambda: len(c), len(cont))
-        read('iter', lambda: sorted(c), sorted(cont))
-        read('keys', lambda: sorted(c.keys()), sorted(cont))
-        read('items', lambda: sorted(c.items()), sorted(cont.items()))
+        read('iter', lambda: sorted(c, key=repr), sorted(cont, key=repr))
+        read('keys', lambda: sorted(c.keys(), key=repr), sorted(cont, key=repr))
+        read('items', lambda: sorted(c.items(), key=repr), sorted(cont.items(), key=repr))
         read('values', lambda: sorted(map(repr, c.values())), sorted(map(repr, cont.values())))
         read('==dict(equal)', lambda: c == dict(cont), True)
         read('!=dict(equal)', lambda: c != dict(cont), False)
@@ -436,7 +436,7 @@ class Spec:
         other = dict(cont); other['zz'] = 0
         read('==dict(extra key)', lambda: c == other, False)
         if cont:
-            k = sorted(cont)[0]
+            k = sorted(cont, key=repr)[0]
             ch = dict(cont); ch[k] = 'other'
             read('==dict(value differs)', lambda: c == ch, False)
             read('!=dict(value differs)', lambda: c != ch, True)
